@@ -378,12 +378,12 @@ done:
 /* -------------------------------------------------------------- EC points */
 enum { Q_VALID = 0, Q_NEG, Q_INF_1BYTE, Q_INF_FULL, Q_ZERO_ZERO, Q_Y_PLUS1, Q_Y_MINUS1, Q_X_PLUS1, Q_X_EQ_P, Q_Y_EQ_P, Q_P_P,
        Q_X_PLUS_P, Q_Y_PLUS_P, Q_TWIST, Q_ONE_ONE, Q_X_ZERO, Q_SHORT2, Q_LONG_ZEROS, Q_LONG_GARBAGE, Q_FMT02, Q_FMT03, Q_FMT02_FULL,
-       Q_FMT06, Q_FMT07, Q_FMT05, Q_FMT00_XY, Q_FMTFF, Q_OTHER_CURVE, Q_G, Q_EVEN_LEN, Q_X_ONLY_04, Q_NPT };
+       Q_FMT06, Q_FMT07, Q_FMT05, Q_FMT00_XY, Q_FMTFF, Q_OTHER_CURVE, Q_G, Q_EVEN_LEN, Q_X_ONLY_04, Q_SMALL_X, Q_NPT };
 static const char *point_named[Q_NPT] = {
     "valid", "valid-negated", "infinity-1byte", "infinity-00-padded", "zero-zero", "y-plus-1", "y-minus-1", "x-plus-1", "x-eq-p", "y-eq-p",
     "p-p", "x-plus-p", "y-plus-p", "twist-point", "one-one", "x-zero", "short-by-2", "leading-zero-coords", "trailing-garbage",
     "fmt-02-compressed", "fmt-03-compressed", "fmt-02-full-length", "fmt-06-hybrid", "fmt-07-hybrid", "fmt-05", "fmt-00-valid-xy", "fmt-ff",
-    "other-curve-generator", "generator", "even-length", "fmt-04-x-only" };
+    "other-curve-generator", "generator", "even-length", "fmt-04-x-only", "small-x" };
 
 typedef struct { unsigned char b[300]; int len; const char *name; char human[120]; } ptest_t;
 
@@ -492,7 +492,6 @@ static int point_build(eckey_t *E, int v, long i, ptest_t *t)
     case Q_LONG_ZEROS: put_xy(t, 4, x, y, sz + 1); break;
     case Q_LONG_GARBAGE: put_xy(t, 4, x, y, sz); t->b[t->len++] = 0xa5; t->b[t->len++] = 0x5a; break;
     case Q_FMT02: case Q_FMT03:
-        t->b[0] = (unsigned char) ((BN_is_odd(y) ? 3 : 2) ^ (i == Q_FMT02 ? 0 : 1) ^ (BN_is_odd(y) ? 1 : 0));
         t->b[0] = (unsigned char) (i == Q_FMT02 ? 2 : 3);
         BN_bn2binpad(x, t->b + 1, sz); t->len = 1 + sz; break;
     case Q_FMT02_FULL: put_xy(t, 2, x, y, sz); break;
@@ -514,6 +513,17 @@ static int point_build(eckey_t *E, int v, long i, ptest_t *t)
         break;
     case Q_EVEN_LEN: put_xy(t, 4, x, y, sz); t->len -= 1; break;
     case Q_X_ONLY_04: t->b[0] = 4; BN_bn2binpad(x, t->b + 1, sz); t->len = 1 + sz; break;
+    case Q_SMALL_X:
+        /* the valid point with the smallest x >= 1 (one machine word): must be accepted */
+        BN_one(t1);
+        for (;;)
+        {
+            rhs_curve(E, t1, t2);
+            if (BN_kronecker(t2, E->p, E->bn) == 1) break;
+            BN_add_word(t1, 1);
+        }
+        if (!BN_mod_sqrt(t2, t2, E->p, E->bn)) { rc = -1; break; }
+        put_xy(t, 4, t1, t2, sz); break;
     }
 out:
     BN_free(k); BN_free(x); BN_free(y); BN_free(t1); BN_free(t2);
@@ -593,7 +603,7 @@ static int run_point(const case_t *c, mx_result_t *r)
     if (acc) dumphex("MatrixSSL secret", out, outlen);
     if (have_ref) dumphex("reference secret", refsec, (size_t) E->size);
 
-    if ((c->v == V_NAMED && (c->i == Q_VALID || c->i == Q_NEG || c->i == Q_G || c->i == Q_X_ZERO) && !(oncurve && canonical)) ||
+    if ((c->v == V_NAMED && (c->i == Q_VALID || c->i == Q_NEG || c->i == Q_G || c->i == Q_X_ZERO || c->i == Q_SMALL_X) && !(oncurve && canonical)) ||
         (c->v == V_NAMED && (c->i == Q_Y_PLUS1 || c->i == Q_TWIST || c->i == Q_ZERO_ZERO || c->i == Q_X_EQ_P) && oncurve))
     {
         internal_err(r, "point-oracle-mismatch", "on-curve=%d contradicts the construction of %s", oncurve, r->desc);
